@@ -53,7 +53,7 @@ IMPORTS = [("PW.model", "M_line"), ("PW.proofs", "P_vec"), ("PW.proofs", "P_plan
 
 # ---------------------------------------------------------------------------------------------------------
 UNF = ("cbv [project_point_to_line project_points_to_line project_points_to_lines vg_project line_project "
-       "line_project_stack reference_points line_intersect_line intersect_lines intersect_2d_lines lref lalong "
+       "line_project_stack reference_points line_intersect_line intersect_lines intersect_lines_rational intersect_2d_lines lref lalong "
        "veqb vnormalize vnorm vnorm2 vdivs vcross map zip fst snd option_map orb negb "
        "vlist vadd vsub vscale vdot vx vy vz n0 n1]; rops. rewrite ?Rplus_0_l in *. "
        # a power-of-two rescaling of the direction (literal constant c) cancels in the unit vector
@@ -103,13 +103,27 @@ def kernels():
     # ---- intersect_lines (the repaired routine): one kernel per branch ------------------------------------------
     ARGS = "(V3 a0 a1 a2) (V3 b0 b1 b2) (V3 c0 c1 c2) (V3 d0 d1 d2)"
 
+    # intersect_lines kernels: the code may or may not take the norms of h and k. If neither the path nor the traced
+    # values contain a square root, the tie is made against the square-root-free form of the model, which is proved equal
+    # to intersect_lines for all inputs (P_line.intersect_lines_rational_eq); the lemma statement is about intersect_lines
+    # either way.
+    unf = UNF.replace(". ", "; ").rstrip(".;")
+    has_sqrt = ("first [ match type of Hpath with context [sqrt _] => idtac end "
+                "| match goal with |- context [nsqrt _ _] => idtac end ]")
+
+    def il_script(close):
+        rest = "path_facts Hpath; " + unf + "; decide_ifs; cbn [andb orb negb]; " + close
+        return ("Proof. intros {vars} Hpath. unfold {T}_path in Hpath; rops. unfold {T}.\n"
+                "  first [ " + has_sqrt + "; " + rest + "\n"
+                "        | rewrite intersect_lines_rational_eq; " + rest + " ]. Qed.")
+
     def il(name, a, b, c, d, none=False, extra=""):
         if none:
             ks.append(Kernel(
                 name, {"a": a, "b": b, "c": c, "d": d},
                 lambda a, b, c, d: (intersect_lines(a, b, c, d) is None,),
                 "Lemma {T}_ok : forall {vars} : R, {T}_path ROps {vars} -> intersect_lines ROps %s = None.\n" % ARGS
-                + HEAD + "  decide_ifs; cbn [andb orb negb]; reflexivity. Qed.",
+                + il_script("reflexivity"),
                 imports=IMPORTS, expect_structure={"tuple": [True]}, perturb=0.0))
         else:
             ks.append(Kernel(
@@ -117,7 +131,7 @@ def kernels():
                 lambda a, b, c, d: intersect_lines(a, b, c, d),
                 "Lemma {T}_ok : forall {vars} : R, {T}_path ROps {vars} ->\n"
                 "  option_map vlist (intersect_lines ROps %s) = Some ({T} ROps {vars}).\n" % ARGS
-                + HEAD + "  decide_ifs; cbn [andb orb negb]; " + VALS + ". Qed.",
+                + il_script(VALS),
                 imports=IMPORTS, perturb=0.0))
 
     il("isect_sign_minus", [5.0, 5.0, 4.0], [10.0, 10.0, 6.0], [5.0, 5.0, 5.0], [10.0, 10.0, 3.0])
